@@ -177,6 +177,7 @@ let run_op (e : med) (words : string list) : (med * string) Lib.outcome =
   | [ "opts"; o ] -> ok1 (m_set_options e (parse_opts o)) "-"
   | [ "engine"; k ] -> Lib.Ok (m_set_engine e (match int_of_string k with 0 -> EngSimple | 1 -> EngChewing | _ -> EngFuzzy), "-")
   | [ "clearsyl" ] -> Lib.Ok (m_clear_syl e, "-")
+  | [ "get"; _ ] -> Lib.Ok (e, "-")    (* queries are functions of the state: the model's step is the identity *)
   | [ "jnext" ] -> ok2 (m_jump_next e)
   | [ "jprev" ] -> ok2 (m_jump_prev e)
   | [ "jfirst" ] -> ok2 (m_jump_first e)
@@ -282,6 +283,7 @@ let main args =
       let pending_op : string list option ref = ref None in
       let convs : logged list ref = ref [] in
       let dconv : logged list ref = ref [] in
+      let nobs = ref 0 in      (* observations the implementation made after the pending op *)
       let caseno = ref 0 in
       let flush_op () =
         (match (!pending_op, !ed) with
@@ -301,7 +303,7 @@ let main args =
                      Printf.fprintf oc "S %s\n" (snapshot e');
                      queue := Stdlib.List.rev !dconv;
                      cur_editor := Some e';
-                     observe oc e';
+                     for _ = 1 to !nobs do observe oc e' done;
                      validate_pending (Some e') None;
                      ed := Some e'
                  | Lib.Panic s ->
@@ -322,7 +324,8 @@ let main args =
          | _ -> ());
         pending_op := None;
         convs := [];
-        dconv := []
+        dconv := [];
+        nobs := 0
       in
       (try
          while true do
@@ -373,6 +376,7 @@ let main args =
                pending_op := Some (Stdlib.List.filter (fun w -> w <> "") (split ' ' rest))
            | "CONV" -> convs := parse_logged rest :: !convs
            | "DCONV" -> dconv := parse_logged rest :: !dconv
+           | "O" -> incr nobs
            | _ -> ()
          done
        with End_of_file -> flush_op ());
